@@ -10,8 +10,11 @@ sh -c "$CMD" > $O/confirm_A.log 2>&1; A=$?
 git apply -R $O/patch.diff || { echo "cannot revert patch"; exit 2; }
 sh -c "$CMD" > $O/confirm_B.log 2>&1; B=$?
 # patch only, demo removed
-git stash -q --include-untracked 2>/dev/null; git checkout -q -- . ; git apply $O/patch.diff || { echo "cannot re-apply"; exit 2; }
+# (no `git stash` here: the stash is shared by all worktrees of a repository, concurrent runs would hand each other's files back)
+git diff > $O/.state.diff; git ls-files --others --exclude-standard > $O/.state.untracked; tar cf $O/.state.tar -T $O/.state.untracked
+git checkout -q -- . ; xargs -r rm -f < $O/.state.untracked; git apply $O/patch.diff || { echo "cannot re-apply"; exit 2; }
 cargo test --workspace --offline > $O/confirm_C.log 2>&1; C=$?
-git stash pop -q 2>/dev/null
+git checkout -q -- . ; [ -s $O/.state.diff ] && git apply $O/.state.diff; tar xf $O/.state.tar; rm -f $O/.state.diff $O/.state.untracked $O/.state.tar
+git apply $O/patch.diff  # leave the worktree as it was found: change applied, demonstration present
 echo "$ID: demo_with_change_exit=$A (want !=0) demo_without_change_exit=$B (want 0) suite_with_change_exit=$C (want 0)"
 grep -E "^test result" $O/confirm_C.log | head -3
